@@ -7,6 +7,7 @@ from .. import core, qeval, qgen
 from .. import gen as G
 
 LEVEL = "proof"
+READY = True
 CLAIM = {
     "text": "Lean theorems over ALL arrays/slices and ALL documents: the code-shaped slice (CPython slice.indices + range) equals the RFC 9535 "
             "Normalize/Bounds/loop definition for every start/stop/step and length; name/index/wildcard selectors and child/descendant segments of the "
